@@ -13,7 +13,8 @@ open Aqv.Gen
     to the order of the disjuncts in the Go source and to the order of the extracted list (it compares the two sets). -/
 theorem isProtectedMethodName_translated_mem (name : String) :
     Translated.isProtectedMethodName name = true ↔ name ∈ Aqv.Gen.Rpc.protectedNames := by
-  simp only [Translated.isProtectedMethodName, Translated.isProtectedMethodName.b2, Aqv.Gen.Rpc.protectedNames]
+  unfold Translated.isProtectedMethodName      -- the join blocks `isProtectedMethodName.bN` are @[simp]
+  simp only [Aqv.Gen.Rpc.protectedNames]
   repeat' split
   all_goals simp_all
 
@@ -22,4 +23,16 @@ theorem isProtectedMethodName_translated_eq :
   funext name
   rw [Bool.eq_iff_iff, isProtectedMethodName_translated_mem]
   simp [Aqv.Model.Rpc.isProtected, Aqv.Gen.Rpc.params]
+
+/-- the Go method names that must stay protected: the four names protected at the pinned revision, each of which reaches a
+    keystore signing entry point (`Aqv.Gen.Rpc.signers`).  Hand-written, NOT regenerated. -/
+def protectedNamesRef : List String := ["SendTransaction", "Sign", "SignAndSendTransaction", "SignTransaction"]
+
+/-- the translated code still protects every one of them (one direction only: protecting MORE names is not a violation). -/
+theorem isProtectedMethodName_translated_ref :
+    ∀ n ∈ protectedNamesRef, Translated.isProtectedMethodName n = true := by
+  intro n hn
+  simp only [protectedNamesRef, List.mem_cons, List.not_mem_nil, or_false] at hn
+  unfold Translated.isProtectedMethodName
+  rcases hn with h | h | h | h <;> subst h <;> simp
 end Aqv.Lemmas.Translated
